@@ -74,12 +74,15 @@ func (p *PubComp) fill(b []byte, i int) int {
 func (p *PubComp) variableHeader(b []byte, i int) int {
 	n := i
 	i += p.packetID.fill(b, i)
-	i += p.reasonCode.fillOpt(b, i)
 
 	propl := vbint(p.properties(_LEN, 0))
 	if propl > 0 {
+		// the reason code may only be omitted when no properties follow
+		i += p.reasonCode.fill(b, i)
 		i += propl.fill(b, i)   // Properties len
 		i += p.properties(b, i) // Properties
+	} else {
+		i += p.reasonCode.fillOpt(b, i)
 	}
 	return i - n
 }
